@@ -9,6 +9,15 @@ binary64; `split_matrix` rank/side/rescale against `splitPlan` on the recorded e
 (b) random operation histories on the real `emu_mps.MPS` against `Model.Canon` (declared centre equal,
 every claimed flag checked numerically on the real tensors, bonds, discarded weight from the eigh tape,
 norm); (c) real TDVP runs with `_evolve` interposed. The (b)/(c) checks are also the property oracle.
+
+Lean (bridge): EmuVerif.Props.C10Bridge over Model.CanonOps — the flags of Model.Canon are *true of the actual
+factor tensors* given the QR contract (q^H q = 1, q r = m) and the eigh contract, for every history of
+orthogonalize / truncate / + / scalar* / apply / apply_to / norm / expect_batch / inner / get_correlation_matrix /
+sample / entanglement_entropy; hence declared centre c => factors left of c are left isometries, right of c right
+isometries, norm^2 = ||factor c||_F^2. Correspondence (d): `truncate_impl` exact on Gaussian-integer chains with an
+exact eigh oracle (phase-permutation eigenvectors, designed spectra; ranks decided by the model), and the whole
+tensor-level machine `cb.run` against real histories with the recorded qr / split_matrix tapes (1e-10), every
+recorded qr validated against the contract the theorems assume.
 """
 from __future__ import annotations
 
@@ -33,23 +42,43 @@ REGISTRY = dict(
           "left-orthonormal and every factor right of c right-orthonormal (induction over the op list; DMRG's unasserted "
           "centre write needs the stated guard, with a kernel-checked counterexample without it); (5) for any chain of "
           "left-/right-orthonormal site tensors (inductive families, all lengths) ||psi||_F = ||centre tensor||_F. "
-          "PARTIAL: flags are tied to real tensors numerically (QR/eigh contracts are assumed, validated every run), "
-          "binary64 rounding is outside the theorems. Models tied to the code by bit-exact (cutoff) / exact (centre, ranks) "
-          "correspondence."),
-    note=("Trusted: Lean kernel + propext/Classical.choice/Quot.sound; Mathlib; hand-written Model.Cutoff/Model.Canon tied "
-          "by correspondence only; torch.linalg.qr/eigh contracts assumed (validated numerically on every recorded call); "
-          "flag semantics (L = orthonormal columns, R = orthonormal rows) checked on the real tensors to 1e-9."),
+          "(6) BRIDGE (Props/C10Bridge.lean, theorems for every site count / bond sequence / physical dimension, scalars any "
+          "commutative *-ring): on the tensor-level model of the same operations (Model.CanonOps: QR steps of orthogonalize, "
+          "split_matrix steps of truncate_impl, add_factors, scale_factors, apply, zip_right), GIVEN the kernel contracts as "
+          "hypotheses (qr: q^H q = 1 and q r = m; eigh: EighContract, used through kept_factor_isometry), (i) one QR step makes "
+          "the processed factor a left/right isometry, keeps every amplitude and touches no other factor; (ii) after "
+          "orthogonalize(k) from ANY chain, factors 0..k-1 are left and k+1..n-1 right isometries, the state is unchanged and "
+          "norm^2 = ||factor k||_F^2; after truncate() the chain is canonical around the declared centre 0 and every bond is in "
+          "[1, max_bond_dim] when the kept ranks are those of Model.Cutoff; (iii) HISTORY BRIDGE: the tensor machine refines the "
+          "flag machine - for every history of orthogonalize / truncate / + / scalar* / apply / MPO.apply_to / norm / expect_batch "
+          "/ inner / get_correlation_matrix / sample / entanglement_entropy (and the composite quantum jump) every flag of "
+          "Model.Canon is TRUE of the actual factor it sits on, so whenever the declared centre is c the actual factors left of "
+          "c are left isometries (A^H A = 1, the hypothesis of LeftChain.snoc), those right of c right isometries, and "
+          "inner(self,self) = sum_s |amp s|^2 = ||factor c||_F^2. So the flag->isometry reading of (4)/(5) is now a theorem for "
+          "those operations; it remains flag-level only for the back-end writes _evolve (TDVP) and DMRG progress. "
+          "PARTIAL: the QR/eigh contracts themselves are assumed (validated numerically on every recorded call), "
+          "binary64 rounding is outside the theorems. Models tied to the code by bit-exact (cutoff) / exact (centre, ranks, "
+          "truncate_impl on Gaussian integers) / 1e-10 (tensor machine on recorded tapes) correspondence."),
+    note=("Trusted: Lean kernel + propext/Classical.choice/Quot.sound; Mathlib; hand-written Model.Cutoff/Model.Canon/"
+          "Model.CanonOps tied by correspondence only; torch.linalg.qr/eigh contracts assumed (validated numerically on every "
+          "recorded call: q^H q = 1, q r = m, Q unitary, G = Q diag(d) Q^H); flag semantics (L = orthonormal columns, R = "
+          "orthonormal rows) are a theorem given those contracts (Props/C10Bridge) for the public MPS operations and are "
+          "additionally checked on the real tensors to 1e-9; for _evolve / DMRG they are checked numerically only."),
     technique="Lean 4 proof (list induction, op-history induction, Mathlib matrix algebra) + bit-exact/exact correspondence with oracle tapes",
     design_ref="DESIGN.md §5 C10",
 )
 
 PROP_MODULE = "EmuVerif.Props.C10"
 AUDIT = "Audit/C10.lean"
+BRIDGE_MODULE = "EmuVerif.Props.C10Bridge"      # flags are true of the actual tensors (tensor-level machine)
+BRIDGE_AUDIT = "Audit/C10Bridge.lean"
 
 ISO_TOL = 1e-9          # property text: flags checked to ||A^H A - 1||_max < 1e-9
 NORM_RTOL = 1e-9        # norm vs centre tensor norm, relative (clean-tree spread ~1e-15)
 FROB_RTOL = 1e-9        # ||m - l r||_F^2 vs discarded weight, relative to ||m||_F^2 (clean-tree spread ~1e-15)
 EIGH_TOL = 1e-9         # eigh contract validation, relative to the largest eigenvalue
+QR_TOL = 1e-9           # qr contract validation: ||q^H q - 1||_max, ||q r - m||_max / max(1, ||m||_max) (clean-tree spread ~1e-15)
+MACHINE_TOL = 1e-10     # tensor-level machine vs real factors, entrywise relative to max(1, |entry|max) (spread ~1e-14)
 
 
 def _defer(rep, batch, lines, judge):
@@ -726,7 +755,7 @@ def history_correspondence(rep: Report, rng, n: int, tier: str, batch=None) -> N
     sweep_lines, sweep_meta = [], []
     import time
     for _ in range(n):
-        if tier == "quick" and time.time() - rep.t0 > 50 and len(cases) >= 40:
+        if tier == "quick" and time.time() - getattr(rep, "t_work", rep.t0) > 35 and len(cases) >= 40:
             # soft wall-clock budget of the quick tier (the machine may be shared): stop generating,
             # judge what was run; recorded so that the evidence shows the reduced coverage
             rep.extra["histories_cut_short_by_budget"] = n - len(cases)
@@ -894,6 +923,364 @@ def _dummy_obs():
     return BitStrings(evaluation_times=[1.0], num_shots=1)
 
 
+# =================================================================== (d) tensor-level bridge (Model.CanonOps)
+def check_qr_contract(rep, m, q, r, data) -> None:
+    """Numerical validation of the contract the bridge theorems assume of `torch.linalg.qr` (a test, labelled
+    as such): q^H q = 1 and q r = m."""
+    import torch
+    k = q.shape[1]
+    iso = float((q.mH @ q - torch.eye(k, dtype=q.dtype)).abs().max()) if k else 0.0
+    scale = max(1.0, float(m.abs().max())) if m.numel() else 1.0
+    rec = float((q @ r - m).abs().max()) / scale if m.numel() else 0.0
+    rep.extra["qr_contract_max_defect"] = max(rep.extra.get("qr_contract_max_defect", 0.0), iso, rec)
+    rep.count("qr_calls_validated")
+    if iso > QR_TOL or rec > QR_TOL:
+        rep.fail(f"torch.linalg.qr contract violated (isometry {iso:.2e}, reconstruction {rec:.2e})", data, klass=None)
+
+
+def phase_permutation(rng, n):
+    """exact unitary with entries in {0, +-1, +-i}"""
+    import torch
+    q = torch.zeros(n, n, dtype=torch.complex128)
+    perm = list(range(n))
+    rng.shuffle(perm)
+    for i, j in enumerate(perm):
+        q[i, j] = rng.choice([1, -1, 1j, -1j])
+    return q
+
+
+def designed_spectrum(rng, n, eps):
+    """ascending-ish spectrum around eps^2 so that the cutoff index lands anywhere in 0..n-1 (ties included)"""
+    sq = eps * eps
+    kind = rng.choice(["below", "lattice", "decay", "flat", "neg"])
+    if kind == "below":
+        return [sq / (4 * n)] * n
+    if kind == "lattice":
+        return sorted(sq / 4 * rng.choice([0, 1, 1, 2, 3, 8]) for _ in range(n))
+    if kind == "decay":
+        return sorted(sq * 10 ** rng.uniform(-3, 4) for _ in range(n))
+    if kind == "flat":
+        return [1.0] * n
+    return sorted([-sq * 1e-3] + [sq * 10 ** rng.uniform(-2, 3) for _ in range(n - 1)])
+
+
+def bridge_trunc_exact(rep: Report, rng, ncases: int, batch=None) -> None:
+    """`truncate_impl` on Gaussian-integer chains with an *exact* eigh oracle (phase-permutation eigenvectors,
+    designed spectrum): every entry of every factor compared as integers with `cb.truncd z` — the model decides
+    the ranks itself (Model.Cutoff.splitPlan on the same spectrum) and applies Model.CanonOps.truncStep."""
+    import torch
+    import emu_mps.utils as U
+    from harness.props import tensor_util as tu
+    lines, metas = [], []
+    frob_lines, frob_want = [], []
+    for _ in range(ncases):
+        n = rng.choice([2, 2, 3, 3, 4, 5, 6])
+        d = rng.choice([2, 2, 3])
+        fs = tu.rand_int_chain(rng, n, (d,), rng.choice([1, 2, 3, 4, 6]), 3)
+        eps = rng.choice([0.5, 0.25, 1e-3, 1e-5, 2.0])
+        cap = rng.choice([1, 2, 2, 3, 4, 8, 64])
+        recs = []
+
+        def fake_eigh(a, *args, **kw):
+            k = a.shape[0]
+            dv = torch.tensor(designed_spectrum(rng, k, eps), dtype=torch.float64)
+            q = phase_permutation(rng, k)
+            recs.append((dv.clone(), q.clone()))
+            return dv, q
+        out = [f.clone() for f in fs]
+        try:
+            with mock.patch("torch.linalg.eigh", fake_eigh):
+                U.truncate_impl(out, precision=eps, max_bond_dim=cap)
+        except Exception as e:
+            rep.fail(f"truncate_impl raised {type(e).__name__}: {e}", {"kind": "bridge_trunc", "n": n, "d": d})
+            continue
+        if not tu.is_exact(*out):
+            rep.count("bridge_exact_skipped_magnitude")
+            continue
+        toks = []
+        for (dv, q) in recs:
+            dr = q.shape[0] // d          # (the right bond of factor i at the time of its split)
+            toks.append(f"{lst(f2b(x) for x in dv.tolist())} {q.shape[0]}:{dr}|{tu.enc_vals(q, 'z')}")
+        lines.append(f"cb.truncd z {f2b(eps)} {cap} {tu.enc_chain(fs, 'z')} {len(toks)} " + " ".join(toks))
+        metas.append((out, n, d, eps, cap))
+        rep.hist("bridge_trunc_sites", n)
+        # `frobSite` of the model (the right-hand side of canonical_norm) = factor.norm()**2, exact on Gaussian integers
+        frob_lines.append(f"cb.frob z {tu.enc_site(out[0], 'z')}")
+        frob_want.append(int(round(float((out[0].abs() ** 2).sum()))))
+
+    def judge(mo):
+        bad = 0
+        for reply, (out, n, d, eps, cap) in zip(mo, metas):
+            rep.case(key=("btrunc", hash(reply)), nontrivial=True,
+                     sample={"part": "d1", "n": n, "d": d, "eps": eps, "cap": cap, "bonds": [f.shape[2] for f in out]})
+            msg = None
+            if not reply.startswith("ok "):
+                msg = f"model answered {reply[:40]}"
+            else:
+                t = reply.split()
+                ks = [] if t[1] == "-" else [int(x) for x in t[1].split(",")]
+                want = [f.shape[0] for f in out[1:]][::-1]
+                rep.hist("bridge_trunc_cap_binds", any(k == cap for k in want))
+                if ks != want:
+                    msg = f"kept ranks model {ks} real {want}"
+                else:
+                    ms, _ = tu.dec_chain(t[2:], "z")
+                    if not tu.chains_equal_exact(ms, out):
+                        msg = "factors after truncate_impl differ (exact)"
+            if msg:
+                bad += 1
+                if bad <= 3:
+                    rep.broke(f"correspondence Model.CanonOps.truncateImpl vs truncate_impl (exact eigh oracle): n={n} d={d} "
+                              f"eps={eps} cap={cap}: {msg}")
+        for reply, want in zip(mo[len(metas):], frob_want):
+            if reply != f"{want}@0":
+                bad += 1
+                rep.broke(f"correspondence Model.CanonOps.frobSite vs factor.norm()**2 (exact): model {reply} real {want}")
+        rep.extra["bridge_trunc_cases"] = len(metas)
+        rep.extra["bridge_trunc_disagreements"] = bad
+    _defer(rep, batch, lines + frob_lines, judge)
+
+
+def gen_bridge_history(rng, tier):
+    n = rng.choice([2, 2, 3, 3, 4, 5])
+    dim = rng.choice([2, 2, 3])
+    ops = []
+    for _ in range(rng.randint(1, 7 if tier == "quick" else 12)):
+        k = rng.randrange(n) if rng.random() < 0.96 else rng.choice([n, n + 2])
+        o = rng.choice(["o", "o", "o", "t", "t", "a", "a", "s", "p", "p", "z", "e", "n", "i", "c", "m", "y"])
+        ops.append(o + (str(k) if o in "opy" else ""))
+    return dict(n=n, dim=dim, precision=10 ** rng.uniform(-10, -2), cap=rng.choice([1, 2, 2, 3, 4, 8, 16]),
+                bmax=rng.choice([1, 2, 3, 4, 6]), init=rng.choice(["fresh", "fresh", "make", "state"]), ops=ops,
+                seed=rng.randrange(2 ** 31))
+
+
+def run_bridge_history(case, rep=None):
+    """Run one history on the real `emu_mps.MPS`, recording for every operation the qr answers of each
+    `orthogonalize` call, the zip-up qr answers and every `split_matrix` result. Returns the `cb.run` line, the
+    real centres after each operation and the real final factors."""
+    import torch
+    import emu_mps.utils as U
+    from emu_mps import MPS, MPO
+    from harness.props import tensor_util as tu
+    rng = seeded(case["seed"])
+    gen = torch.Generator().manual_seed(case["seed"])
+    torch.manual_seed(case["seed"])
+    n, dim = case["n"], case["dim"]
+    eig = ("r", "g") if dim == 2 else ("r", "g", "x")
+    kw = dict(precision=case["precision"], max_bond_dim=case["cap"], num_gpus_to_use=None, eigenstates=eig)
+    if case["init"] == "make":
+        cur = MPS.make(n, precision=case["precision"], max_bond_dim=case["cap"], num_gpus_to_use=0, eigenstates=list(eig))
+    elif case["init"] == "fresh":
+        cur = MPS(rand_factors(rng, n, dim, case["bmax"], gen), orthogonality_center=None, **kw)
+    else:
+        centre = rng.choice([None] + list(range(n)))
+        fs, _flags = flagged_factors(rng, n, dim, case["bmax"], gen, centre)
+        cur = MPS(fs, orthogonality_center=centre, **kw)
+    K = "f"
+    init_centre = cur.orthogonality_center
+    init_chain = tu.enc_chain(cur.factors, K)
+    qr = tu.QrTape(None, "real")
+    real_orth = MPS.orthogonalize
+    orth_calls, splits = [], []
+    orig_split = U.split_matrix
+
+    def orth_rec(self, k=0):
+        c0, i0 = self.orthogonality_center, len(qr.calls)
+        try:
+            return real_orth(self, k)
+        finally:
+            orth_calls.append((c0, k, self.num_sites, i0, len(qr.calls)))
+
+    def split_rec(m, *a, **kws):
+        l, r = orig_split(m, *a, **kws)
+        splits.append((m.detach().clone(), r.detach().clone()))
+        return l, r
+
+    def otape(rec):
+        c0, k, nn, i0, i1 = rec
+        l0 = 0 if c0 is None else c0
+        r0 = nn - 1 if c0 is None else c0
+        nl, nr = max(0, k - l0), max(0, r0 - k)
+        calls = qr.calls[i0:i1]
+        if len(calls) != nl + nr:       # (an assert inside orthogonalize: nothing was recorded)
+            return "0 0"
+        lt, rt = [], []
+        for (mm, q, r) in calls[:nl]:
+            lt.append(f"{mm.shape[0] // dim}:{dim}:{q.shape[1]}:{r.shape[1]}|{tu.enc_vals(q, K)}|{tu.enc_vals(r, K)}")
+        for (mm, q, r) in calls[nl:]:
+            rt.append(f"{q.shape[1]}:{dim}:{mm.shape[0] // dim}:{r.shape[1]}|{tu.enc_vals(q.mT.contiguous(), K)}|{tu.enc_vals(r, K)}")
+        return " ".join([str(nl)] + lt + [str(nr)] + rt)
+
+    def stape():
+        toks = []
+        for (m, r) in splits:
+            toks.append(f"{r.shape[0]}:{dim}:{m.shape[1] // dim}|{tu.enc_vals(r.mH.contiguous(), K)}")
+        return " ".join([str(len(toks))] + toks)
+
+    def pad(recs, k):
+        return [otape(r) for r in recs] + ["0 0"] * (k - len(recs))
+
+    toks, centres, done = [], [], []
+    degenerate = False
+    for op in case["ops"]:
+        o, k = op[0], (int(op[1:]) if len(op) > 1 else None)
+        if o == "m":
+            nrm2 = float(cur.inner(cur).real)
+            if degenerate or not (1e-12 < nrm2 < 1e12):
+                continue
+        del orth_calls[:], splits[:]
+        q0 = len(qr.calls)
+        before = [f.detach().clone() for f in cur.factors]
+        before_cap, before_prec = cur.max_bond_dim, cur.precision
+        raised = False
+        aux = {}
+        try:
+            with mock.patch("torch.linalg.qr", qr), mock.patch.object(MPS, "orthogonalize", orth_rec), \
+                    mock.patch.object(U, "split_matrix", split_rec):
+                if o == "o":
+                    cur.orthogonalize(k)
+                elif o == "t":
+                    cur.truncate()
+                elif o == "a":
+                    w = rng.random()
+                    if w < 0.2:
+                        other = cur
+                    elif w < 0.35:
+                        other = MPS.make(n, num_gpus_to_use=0, eigenstates=list(eig))
+                    else:
+                        other = MPS(rand_factors(rng, n, dim, rng.choice([1, 2, case["bmax"]]), gen,
+                                                 scale=rng.choice([1.0, 1.0, 1e-3])), **kw)
+                    aux["other"] = tu.enc_chain(other.factors, K)
+                    cur = cur + other
+                elif o == "s":
+                    z = rng.choice([complex(rng.uniform(-2, 2), rng.uniform(-2, 2)), 0.5, -1.0, 1e-3, 0.0])
+                    if z == 0.0:
+                        degenerate = True
+                    aux["z"] = z
+                    cur = z * cur
+                elif o == "p":
+                    g = torch.randn(dim, dim, dtype=torch.complex128, generator=gen)
+                    if rng.random() < 0.25:
+                        g = torch.zeros(dim, dim, dtype=torch.complex128)
+                        g[rng.randrange(dim), rng.randrange(dim)] = 1.0
+                        degenerate = True
+                    aux["g"] = g
+                    cur.apply(k, g)
+                elif o == "z":
+                    wb = [1] + [rng.randint(1, 3) for _ in range(n - 1)] + [1]
+                    ws = [torch.randn(wb[i], dim, dim, wb[i + 1], dtype=torch.complex128, generator=gen) / dim for i in range(n)]
+                    aux["ws"] = ws
+                    cur = MPO([w.clone() for w in ws]).apply_to(cur)
+                    cur.precision, cur.max_bond_dim = before_prec, before_cap     # (observation O1 of notes/cutoff.md)
+                elif o == "e":
+                    cur.expect_batch(torch.randn(2, dim, dim, dtype=torch.complex128, generator=gen))
+                elif o == "n":
+                    cur.norm()
+                elif o == "i":
+                    cur.inner(cur); cur.get_max_bond_dim()
+                elif o == "c":
+                    cur.get_correlation_matrix()
+                elif o == "m":
+                    cur.sample(num_shots=2)
+                elif o == "y":
+                    cur.entanglement_entropy(k)
+        except AssertionError:
+            raised = True
+            if o not in "opy":
+                return dict(error=f"op {op!r} raised AssertionError", upto=len(done))
+        except Exception as e:
+            return dict(error=f"op {op!r} raised {type(e).__name__}: {e}", upto=len(done))
+        # the operation with the kernel answers recorded while it ran. Missing `orthogonalize` calls are padded with
+        # empty tapes: a model that needs them then fails, which shows up as a correspondence disagreement.
+        ot = pad([] if raised else orth_calls, 2)
+        if o == "o":
+            tok = f"o {k} {ot[0]}"
+        elif o == "t":
+            tok = f"t {ot[0]} {stape()}"
+        elif o == "a":
+            tok = f"a {aux['other']} {ot[0]} {stape()}"
+        elif o == "s":
+            tok = f"s {tu.enc_f(aux['z'])}"
+        elif o == "p":
+            tok = f"p {k} {dim} {tu.enc_vals(aux.get('g', torch.eye(dim, dtype=torch.complex128)), K)} {ot[0]}"
+        elif o == "z":
+            zt = []
+            for (mm, q, r), top, bot in zip(qr.calls[q0:], aux["ws"], before):
+                zt.append(f"{mm.shape[0] // dim}:{dim}:{q.shape[1]}:{top.shape[-1]}:{bot.shape[-1]}|"
+                          f"{tu.enc_vals(q, K)}|{tu.enc_vals(r, K)}")
+            tok = f"z {tu.enc_chain(aux['ws'], K)} {len(zt)} {' '.join(zt)} {stape()}"
+        elif o in "enm":
+            tok = f"{o} {ot[0]}"
+        elif o == "i":
+            tok = "i"
+        elif o == "c":
+            tok = f"c {len(orth_calls)} " + " ".join(otape(r) for r in orth_calls)
+        else:
+            tok = f"y {k} {ot[0]} {ot[1]}"
+        if rep is not None:
+            for (mm, q, r) in qr.calls[q0:]:
+                check_qr_contract(rep, mm, q, r, {"kind": "bridge_hist", **_case_ser(case), "upto": len(done) + 1})
+        done.append(op)
+        toks.append(tok)
+        centres.append("x" if raised else ("-" if cur.orthogonality_center is None else str(cur.orthogonality_center)))
+        if raised:
+            break
+    line = f"cb.run {K} {'-' if init_centre is None else init_centre} {init_chain} {len(toks)} " + " ".join(toks)
+    return dict(line=" ".join(line.split()), centres=centres, final=[f.detach().clone() for f in cur.factors], ops=done)
+
+
+def judge_bridge_history(reply, res):
+    from harness.props import tensor_util as tu
+    if not reply.startswith("ok "):
+        return f"model answered {reply[:60]}"
+    t = reply.split()
+    mc = [] if t[1] == "-" else [("-" if x == "N" else x) for x in t[1].split(",")]
+    if mc != res["centres"]:
+        return f"declared centres / raises differ: model {mc} real {res['centres']}"
+    ms, _ = tu.dec_chain(t[2:], "f")
+    ok, w = tu.chains_close(ms, res["final"], MACHINE_TOL)
+    return None if ok else f"final factors differ by {w:.2e} (tol {MACHINE_TOL})"
+
+
+def bridge_histories(rep: Report, rng, ncases: int, tier: str, batch=None) -> None:
+    """The tensor-level machine `Model.CanonOps.trun` (what `Props/C10Bridge.history_bridge` is about) against real
+    operation histories, fed with the recorded kernel answers; every recorded qr is validated against the contract
+    the theorems assume."""
+    import time
+    lines, metas = [], []
+    for _ in range(ncases):
+        if tier == "quick" and time.time() - getattr(rep, "t_work", rep.t0) > 55 and len(lines) >= 10:
+            rep.extra["bridge_histories_cut_short_by_budget"] = ncases - len(lines)
+            break
+        case = gen_bridge_history(rng, tier)
+        res = run_bridge_history(case, rep)
+        if "error" in res:
+            rep.fail(res["error"], {"kind": "bridge_hist", **_case_ser(case), "upto": res["upto"]})
+            continue
+        if not res["ops"]:
+            continue
+        lines.append(res["line"])
+        metas.append((case, res))
+        for op in res["ops"]:
+            rep.hist("bridge_op", op[0])
+
+    def judge(mo):
+        bad = 0
+        for reply, (case, res) in zip(mo, metas):
+            rep.case(key=("bhist", case["seed"]), nontrivial=len(res["ops"]) >= 2,
+                     sample={"part": "d2", "n": case["n"], "dim": case["dim"], "init": case["init"], "ops": res["ops"],
+                             "centres": res["centres"]})
+            msg = judge_bridge_history(reply, res)
+            if msg:
+                bad += 1
+                if bad <= 3:
+                    rep.broke(f"correspondence Model.CanonOps (tensor-level machine) vs emu_mps.MPS: seed={case['seed']} n={case['n']} "
+                              f"dim={case['dim']} init={case['init']} ops={' '.join(res['ops'])}: {msg}")
+        rep.extra["bridge_histories"] = len(metas)
+        rep.extra["bridge_history_disagreements"] = bad
+    _defer(rep, batch, lines, judge)
+
+
 # =================================================================== check / search / replay
 def check(rep: Report, tier: str, seed: int) -> None:
     rep.rule = ("(a) lists for _determine_cutoff_index: prefix sums exactly on eps^2 (dyadic lattices), tiny +- eigenvalues "
@@ -903,23 +1290,46 @@ def check(rep: Report, tier: str, seed: int) -> None:
                 "sites, qubits/qutrits, bond<=32, precision 1e-12..1e-2, max_bond_dim 1..64, init in {fresh None, MPS.make, "
                 "arbitrary flagged state incl. false claims}, ops orthogonalize/truncate/+/scalar*/apply/apply_to/expect_batch/"
                 "norm/inner/get_correlation_matrix/sample/entanglement_entropy incl. out-of-range sites. (c) real TDVP runs "
-                "with _evolve interposed. non-trivial = >=2 elements / >=2 ops; distinct = distinct line / case seed")
+                "with _evolve interposed. (d) bridge: truncate_impl on Gaussian-integer chains (2-6 sites, bond<=6) with exact "
+                "phase-permutation eigh oracle and designed spectra (exact); tensor-level machine on histories of 1-7 (quick) / "
+                "1-12 (thorough) ops over 2-5 sites with recorded qr/split tapes (1e-10). non-trivial = >=2 elements / >=2 ops; "
+                "distinct = distinct line / case seed")
     rep.assumptions = [
         "torch.linalg.eigh contract (d ascending, q unitary, a = q diag(d) q^H): hypothesis of the matrix theorems; validated "
         "numerically on every recorded call (eigh_contract_max_defect)",
-        "torch.linalg.qr contract (q^H q = 1): gives the flag semantics of Model.Canon; validated by checking every flag the "
-        "model claims on the real tensors (||A^H A - 1||_max < 1e-9)",
+        "torch.linalg.qr contract (q^H q = 1, q r = m): hypothesis of the bridge theorems (Props/C10Bridge: with it, every flag "
+        "of Model.Canon is true of the actual factor); validated on every qr recorded in part (d) (qr_contract_max_defect) and by "
+        "checking every flag the model claims on the real tensors (||A^H A - 1||_max < 1e-9)",
+        "the tensor-level bridge covers the public MPS operations (orthogonalize, truncate, +, scalar*, apply, MPO.apply_to, norm, "
+        "expect_batch, inner, get_correlation_matrix, sample, entanglement_entropy); for the back-end writes (_evolve, DMRG) the "
+        "flag->isometry reading stays an assumption checked numerically in part (c)",
         "binary64 rounding is outside the theorems (they are about the same definitions over an ordered field); the cutoff "
         "decision is compared bit-for-bit and the exact-vs-float index difference is counted (exact_vs_float_index_differs)",
         "the MPS constructor trusts the caller's orthogonality_center; the invariant is claimed for histories starting from "
         "MPS.make / orthogonality_center=None (and from any state that satisfies it)",
     ]
     lean_stage(rep, PROP_MODULE, AUDIT, thorough=(tier == "thorough"))
+    # second audit (pattern of c26.py): the bridge theorems (flags are true of the actual tensors), same rules.
+    # Its build is a no-op after the first one and its audit only waits for a `lean` subprocess, so it runs beside
+    # the generators (which never start the driver: every model query is deferred to `batch.flush`) and is merged
+    # before the driver is used.
+    import threading
+    import time
+    side, box = Report(rep.prop, tier, seed), {}
+
+    def _bridge_stage():
+        try:
+            lean_stage(side, BRIDGE_MODULE, BRIDGE_AUDIT, thorough=(tier == "thorough"))
+        except BaseException as e:      # re-raised in the main thread (a harness error is exit 2, never a verdict)
+            box["exc"] = e
+        box["s"] = round(time.time() - side.t0, 1)
+    th = threading.Thread(target=_bridge_stage, daemon=True)
+    th.start()
     rng = seeded(seed * 7919 + 10)
     quick = tier == "quick"
-    import time
     batch = Batch()
     t = [time.time()]
+    rep.t_work = t[0]                   # the soft budgets of the quick tier count from the end of the first Lean stage
     rep.extra["stage_s"] = {"lean": round(t[0] - rep.t0, 1)}
 
     def lap(name):
@@ -933,6 +1343,23 @@ def check(rep: Report, tier: str, seed: int) -> None:
     lap("histories")
     tdvp_histories(rep, rng, 3 if quick else 20, batch)
     lap("tdvp")
+    rng_b = seeded(seed * 15485863 + 10)       # own stream: parts (a)-(c) keep the inputs they had before part (d) existed
+    bridge_trunc_exact(rep, rng_b, 60 if quick else 600, batch)
+    bridge_histories(rep, rng_b, 120 if quick else 1200, tier, batch)
+    lap("bridge")
+    th.join()
+    if "exc" in box:
+        raise box["exc"]
+    rep.obligations = rep.obligations + [o for o in side.obligations if o not in rep.obligations]
+    rep.discharged.extend(side.discharged)
+    for b in side.broken:
+        rep.broke(b)
+    rep.checker_cmd = rep.checker_cmd + " ; " + side.checker_cmd
+    rep.extra["axioms_used"] = sorted(set(rep.extra.get("axioms_used", [])) | set(side.extra.get("axioms_used", [])))
+    if "leanchecker_rc" in side.extra:
+        rep.extra["leanchecker_rc_bridge"] = side.extra["leanchecker_rc"]
+    rep.extra["stage_s"]["lean_bridge_parallel"] = box.get("s")
+    lap("lean_bridge_wait")
     batch.flush(rep)
     lap("model_driver")
     if rep.broken and not rep.failing:
@@ -1013,6 +1440,13 @@ def replay(rep: Report, path: str) -> int:
                 mo = Driver().batch([line])[0]
                 msgs = [m for k, m in judge_history(Report("C10", "replay", 0), case, res, mo.split(",")) if k == "prop"]
             msg = msgs[0] if msgs else None
+        elif d.get("kind") == "bridge_hist":
+            r2 = Report("C10", "replay", 0)
+            case = {k: d[k] for k in ("n", "dim", "precision", "cap", "bmax", "init", "ops", "seed")}
+            res = run_bridge_history(case, r2)
+            msg = res.get("error") or (r2.failing[0]["what"] if r2.failing else None)
+            if not msg and res.get("ops"):
+                msg = judge_bridge_history(Driver().batch([res["line"]])[0], res)
         elif d.get("kind") == "tdvp":
             r2 = Report("C10", "replay", 0)
 
